@@ -9,6 +9,7 @@ regenerated `Facts.C04` (`countPadding` translation, `decryptChecks`, `alignment
 Property theorems only (helper lemmas: TdModel/Lemmas/C04.lean, C04Ige.lean, C06.lean).
 -/
 import TdModel.Lemmas.C04
+import TdModel.Lemmas.C04Gzip
 
 namespace TdModel.C04
 open TdModel TdModel.Bin
@@ -97,6 +98,60 @@ theorem decrypt_encrypt (P : Prims) (hP : LawfulPrims P) (side : Side) (ak keyId
     simp only [List.length_append, List.length_take]; omega
   · simp only [List.length_append, List.length_take]; omega
 
+/-- **Round trip through the compression-threshold path.**  Whatever branch
+`Conn.newEncryptedMessage` takes for the connection's threshold option (compression disabled → the
+payload as `Message`; encoded payload longer than the threshold → `proto.GZIP{payload}`; otherwise raw
+bytes with `MessageDataLen`), the other side decrypts to the same header fields, and unpacking the
+message data (`gunzip` exactly when `gzip_packed` was sent) gives back the payload.  Compression is a
+parameter with the single law `gunz (gz d) = d`; the compressed form must fit a TL `bytes` (< 2^24). -/
+theorem newEncryptedMessage_roundtrip (P : Prims) (hP : LawfulPrims P) (G : Gz) (hG : LawfulGz G)
+    (side : Side) (ak keyId : Bytes) (opt : Int) (salt sid mid seq : Nat) (payload rnd c : Bytes)
+    (hk : keyId.length = 8) (h1 : salt < 2 ^ 64) (h2 : sid < 2 ^ 64) (h3 : mid < 2 ^ 64) (h4 : seq < 2 ^ 32)
+    (hmod : payload.length % 4 = 0) (hl : payload.length < 2 ^ 31) (hz : (G.gz payload).length < 2 ^ 24)
+    (he : newEncryptedMessage P G side ak keyId opt salt sid mid seq payload rnd = .ok c) :
+    ∃ d, decrypt P side.flip ak keyId c = .ok d ∧
+      d.salt = salt ∧ d.sid = sid ∧ d.mid = mid ∧ d.seq = seq ∧
+      unwrap G (effectiveThreshold opt) payload.length d.payload = some payload ∧
+      (c.length - 24) % 16 = 0 ∧ 12 ≤ d.body.length - d.len ∧ d.body.length - d.len ≤ 1024 := by
+  unfold newEncryptedMessage at he
+  unfold unwrap
+  cases hp : choosePath (effectiveThreshold opt) payload.length with
+  | message =>
+    simp only [hp] at he
+    rw [(encode_paths_agree P side ak keyId salt sid mid seq payload rnd).2] at he
+    obtain ⟨d, hd, a1, a2, a3, a4, _, a6, a7, _, a9, a10⟩ :=
+      decrypt_encrypt P hP side ak keyId salt sid mid seq payload rnd c hk h1 h2 h3 h4 hmod hl he
+    exact ⟨d, hd, a1, a2, a3, a4, by simp [a6], a7, a9, a10⟩
+  | raw =>
+    simp only [hp] at he
+    obtain ⟨d, hd, a1, a2, a3, a4, _, a6, a7, _, a9, a10⟩ :=
+      decrypt_encrypt P hP side ak keyId salt sid mid seq payload rnd c hk h1 h2 h3 h4 hmod hl he
+    exact ⟨d, hd, a1, a2, a3, a4, by simp [a6], a7, a9, a10⟩
+  | gzip =>
+    simp only [hp] at he
+    rw [(encode_paths_agree P side ak keyId salt sid mid seq (gzipEncode G payload) rnd).2] at he
+    have hg := gzipEncode_length G payload
+    obtain ⟨d, hd, a1, a2, a3, a4, _, a6, a7, _, a9, a10⟩ :=
+      decrypt_encrypt P hP side ak keyId salt sid mid seq (gzipEncode G payload) rnd c hk h1 h2 h3 h4 hg.1
+        (by omega) he
+    exact ⟨d, hd, a1, a2, a3, a4, by simp [a6, gzipDecode_gzipEncode G hG payload hz], a7, a9, a10⟩
+
+/-- The three branches are exactly: threshold option < 0 → `Message`; otherwise (0 means 1024) the
+encoded payload is gzip-packed iff it is longer than the threshold. -/
+theorem choosePath_spec (opt : Int) (n : Nat) :
+    choosePath (effectiveThreshold opt) n =
+      if opt < 0 then .message
+      else if (n : Int) > (if opt = 0 then 1024 else opt) then .gzip else .raw := by
+  unfold choosePath effectiveThreshold Facts.C04.threshDisabled Facts.C04.threshCompress
+  rw [show Facts.C04.defaultThreshold = 1024 from rfl]
+  by_cases h0 : opt = 0
+  · subst h0; simp
+  · by_cases hn : opt < 0
+    · have : opt ≤ 0 := by omega
+      simp [h0, hn, this]
+    · have : ¬ opt ≤ 0 := by omega
+      simp [h0, hn, this]
+
 /-- The encrypted body of anything `Cipher.Encrypt` outputs is a positive multiple of 16 bytes after
 the 24-byte envelope (no hypothesis on payload or key). -/
 theorem encrypt_len_mod16 (P : Prims) (hP : LawfulPrims P) (side : Side) (ak keyId : Bytes)
@@ -159,8 +214,9 @@ theorem layout_facts :
     Facts.C04.encMsgKeySide = "c.encryptSide" ∧ Facts.C04.encKeysSide = "c.encryptSide" ∧
     Facts.C04.decKeysSide = "c.encryptSide.DecryptSide()" ∧ Facts.C04.decMsgKeySide = "side" ∧
     Facts.C04.decSideIsFlipped = true ∧ Facts.C04.decryptSideFlips = true ∧
-    Facts.C04.frameKeyIdLen = 8 ∧ Facts.C04.frameMsgKeyLen = 16 ∧ Facts.C04.dataLenChecked = true :=
-  ⟨rfl, rfl, rfl, rfl, rfl, rfl, rfl, rfl, rfl, rfl, rfl, rfl, rfl⟩
+    Facts.C04.frameKeyIdLen = 8 ∧ Facts.C04.frameMsgKeyLen = 16 ∧ Facts.C04.dataLenChecked = true ∧
+    Facts.C04.gzipTypeID = 0x3072cfa1 ∧ Facts.C04.gzipFraming = true :=
+  ⟨rfl, rfl, rfl, rfl, rfl, rfl, rfl, rfl, rfl, rfl, rfl, rfl, rfl, rfl, rfl⟩
 
 /-- Non-vacuity: the hypotheses of `decrypt_encrypt` hold for a concrete message, and the statement
 is about a real ciphertext (toy primitives). -/
